@@ -22,7 +22,7 @@ Definition opt_eqb (a b : option bool) : bool :=
 
 def prove(ctx):
     with ctx.coq_lock():
-        gen_games.ensure_gr1(ctx)
+        gen_games.ensure_transducers(ctx)
         ctx.prove_with_deps('Properties/C03.v')
     ctx.trusted.append(
         'translator tie T: omega/games/gr1.py is_realizable, _make_init '
